@@ -13,13 +13,14 @@ show(const char* what, enum DeviceStatusCode rc, const struct DeviceIdentifier* 
     else printf("%s -> err\n", what);
 }
 int
-main(void)
+main(int argc, char** argv)
 {
+    int phase = argc > 1 ? argv[1][0] - '0' : 1; /* 1: defined-behaviour scenarios; 2: out-of-range indices (error paths) */
     struct DeviceManager dm = { 0 };
     printf("init %d\n", (int)device_manager_init(&dm, 0));
     uint32_t n = device_manager_count(&dm);
     printf("count %u\n", n);
-    for (uint32_t i = 0; i < n + 2; ++i) {
+    for (uint32_t i = 0; i < (phase == 2 ? n + 2 : n); ++i) {
         struct DeviceIdentifier id; memset(&id, 0, sizeof id);
         enum DeviceStatusCode rc = device_manager_get(&id, &dm, i == n + 1 ? 0xfffffff0u : i);
         char w[32]; snprintf(w, sizeof w, "get %u", i); show(w, rc, &id);
@@ -48,8 +49,10 @@ main(void)
         show("null impl", device_manager_select(&empty, DeviceKind_Camera, "x", 1, &id), &id);
         show("get null impl", device_manager_get(&id, &empty, 0), &id);
         printf("count null %u\n", device_manager_count(&empty));
-        id.driver_id = 200;
-        printf("driver oob %d\n", dm_lib_index(device_manager_get_driver(&dm, &id)));
+        if (phase == 2) {
+            id.driver_id = 200;
+            printf("driver oob %d\n", dm_lib_index(device_manager_get_driver(&dm, &id)));
+        }
         printf("driver null id %d\n", dm_lib_index(device_manager_get_driver(&dm, 0)));
     }
     printf("destroy %d impl=%d\n", (int)device_manager_destroy(&dm), dm.impl != 0);
